@@ -4,6 +4,8 @@ import StorageModel.C10.TreeCursor
 import StorageModel.C10.Dump
 import StorageModel.C10.Pipeline
 import StorageModel.C10.Session
+import StorageModel.C10.BoltScan
+import StorageModel.C10.Config
 import StorageModel.Generated.C10Sites
 /- model driver for C10: `run spec` reads case lines on stdin and prints one output line per case
    (spec = false: the engine model's output; spec = true: the spec's verdict). -/
@@ -92,6 +94,17 @@ def stepE (evs : String) : String :=
     | .ok st => s!"le={b01 st.err} clean={c}"
     | .err _ => s!"le=1 clean={c}"
     | .panic site => s!"panic clean={c} site={site}"
+
+
+/-- the result class of ast.Parse under the debug configuration (`ast.EnableQueryDebug` on), by the model that carries
+    the configuration bit and the regenerated fact about what the debug branch reads -/
+def cfgRes (st : SymTab) (text : List Char) : String :=
+  match parseModelCfg Generated.C10.astParseDebugReadsOnlyInput ⟨true⟩ st text with
+  | .ok _ => "ok"
+  | .err e =>
+    if e == "syntax" then "syn" else if e == "listener" then "lerr"
+    else if e == "symbol validation" then "verr" else "terr"
+  | .panic _ => "P"
 
 /-! ### Q cases: schema, rows -/
 
@@ -200,12 +213,63 @@ def stepQ (spec : Bool) (schema seek rowsS w : String) : String :=
     let (pre, _) := front text
     -- the function the theorems are about
     match parseModel st text with
-    | .ok t => s!"{pre} res=ok typed={traceString t} eval={evalRows (seek == "1") t rows}"
+    | .ok t => s!"{pre} res=ok typed={traceString t} eval={evalRows (seek == "1") t rows} cfg={cfgRes st text}"
     | .err e =>
       let kind := if e == "syntax" then "syn" else if e == "listener" then "lerr"
         else if e == "symbol validation" then "verr" else "terr"
-      s!"{pre} res={kind} typed=- eval=-"
-    | .panic site => s!"{pre} res=panic:{site.replace " " "_"} typed=- eval=-"
+      s!"{pre} res={kind} typed=- eval=- cfg={cfgRes st text}"
+    | .panic site => s!"{pre} res=panic:{site.replace " " "_"} typed=- eval=- cfg={cfgRes st text}"
+
+/-! ### N cases: read APIs against never-created structural buckets -/
+
+def nBuckets (state store : String) : Buckets :=
+  let full := state == "full"
+  if store == "kids" then
+    let e := state == "child" || full
+    ⟨e, e, false, full, full⟩
+  else
+    let e := state == "parent" || full
+    ⟨e, e, full, full, full⟩
+
+def nSortSym (n : String) : SortSym :=
+  if n == "id" || n == "s" then .typed .string
+  else if n == "n" then .typed .int64
+  else if n == "b" then .typed .bool
+  else if n == "ss" || n == "kids" then .set
+  else .missing
+
+def ansStr : Outcome Ans → String
+  | .ok .empty => "E"
+  | .ok .scanned => "S"
+  | .err _ => "X"
+  | .panic _ => "P"
+
+def nQuery (store sort skip limit : String) : Q :=
+  let fields : List (String × Bool) := if sort == "-" then [] else
+    (sort.splitOn ",").map fun f => match f.splitOn ":" with
+      | [n, d] => (n, d != "d")
+      | _ => (f, true)
+  let sk : Option Int := if skip == "-" then none else skip.toInt?
+  let li : Option Int := if limit == "-" then none else if limit == "none" then some (-1) else limit.toInt?
+  ⟨fields.map fun (n, a) => (n == "id", a), fields.map fun (n, a) => (nSortSym n, a), sk, li, store == "ext", false⟩
+
+/-- the cursor the harness' provider (`GetRelatedEntitiesCursor` of the probe id) yields -/
+def nProviderCur (b : Buckets) (q : Q) : Cur :=
+  match relatedCursor codeGuards b q with
+  | .ok .scanned => .rowsC
+  | _ => .emptyC
+
+def nApis (b : Buckets) (q : Q) : List (String × Api) :=
+  [("qc", .queryIdsC), ("qw", .queryCursor (nProviderCur b q)), ("qn", .queryCursor .nilC), ("it", .iterateIds),
+   ("iv", .iterateValidIds), ("fb", .findById), ("rl", .relatedIds), ("rc", .relatedCursor), ("ux", .uniqueRead), ("sx", .setRead)]
+
+def stepN (spec : Bool) (state store sort skip limit : String) : String :=
+  let b := nBuckets state store
+  let q := nQuery store sort skip limit
+  if spec then
+    "must=" ++ ",".intercalate ((nApis b q).map fun (n, api) => s!"{n}:{b01 (api.missing b)}")
+  else
+    "fresh=" ++ ",".intercalate ((nApis b q).map fun (n, api) => s!"{n}:{ansStr (readApi codeGuards api b q)}")
 
 /-! ### H cases: a history of ast.Parse calls in one process -/
 
@@ -269,6 +333,7 @@ def step (line : String) : String :=
   | "H" :: schema :: ws => stepH false schema ws
   | ["B", _, _] => "nopanic"
   | ["O", _, _] => "nopanic"
+  | ["N", state, store, _, sort, skip, limit, _] => stepN false state store sort skip limit
   | _ => "bad-case"
 
 /-- the spec: a string is accepted iff it is a sentence (reference lexer + recogniser); nothing
@@ -285,6 +350,7 @@ def specStep (line : String) : String :=
   | "H" :: schema :: ws => stepH true schema ws
   | ["B", _, _] => "nopanic"
   | ["O", _, _] => "nopanic"
+  | ["N", state, store, _, sort, skip, limit, _] => stepN true state store sort skip limit
   | _ => "bad-case"
 
 def run (spec : Bool) : IO Unit := forEachLine (if spec then specStep else step)
